@@ -138,17 +138,30 @@ type VerifC18Snap struct {
 	db               string
 }
 
+// copyConns copies m, inserting the keys of order first. A key of order that
+// m does not hold is inserted and deleted again: the slot it leaves free is the
+// one the runtime reuses when the session adds that key during the command, so
+// that the map is laid out in the prescribed order whichever keys exist
+// beforehand (the harness re-runs a command until the iteration follows the
+// prescribed order; this keeps the odds of that the same for every order).
 func copyConns(m map[string]backend.PooledConnect, order []string) map[string]backend.PooledConnect {
-	out := make(map[string]backend.PooledConnect, len(m))
+	out := make(map[string]backend.PooledConnect, len(m)+len(order))
+	var placeholders []string
 	for _, k := range order {
 		if v, ok := m[k]; ok {
 			out[k] = v
+		} else {
+			out[k] = nil
+			placeholders = append(placeholders, k)
 		}
 	}
 	for k, v := range m {
 		if _, ok := out[k]; !ok {
 			out[k] = v
 		}
+	}
+	for _, k := range placeholders {
+		delete(out, k)
 	}
 	return out
 }
